@@ -654,9 +654,11 @@ func keyListProp(c KeyListCase, r *pbt.R) error {
 	if len(yes) > 0 && len(no) > 0 {
 		r.Label("key list splits the map")
 	}
+	// one key list in the caller's hands, spread into every call (as a caller partitioning a map would do)
+	held := append([]int{}, c.Keys...)
 	for rep := 0; rep < reps; rep++ {
-		where := func() string { return fmt.Sprintf("m=%s keys=%v (run %d)", show(es), c.Keys, rep) }
-		picked, err := gogu.Pick(build(es, rep), append([]int{}, c.Keys...)...)
+		where := func() string { return fmt.Sprintf("m=%s keys=%v (run %d, the same list spread into every call)", show(es), c.Keys, rep) }
+		picked, err := gogu.Pick(build(es, rep), held...)
 		if len(c.Keys) == 0 {
 			if err == nil {
 				return fmt.Errorf("%s: Pick without keys returned no error", where())
@@ -672,7 +674,7 @@ func keyListProp(c KeyListCase, r *pbt.R) error {
 				return fmt.Errorf("%s: Pick = %v, want exactly the entries under the listed keys %s", where(), picked, show(yes))
 			}
 		}
-		omitted := gogu.Omit(build(es, rep), append([]int{}, c.Keys...)...)
+		omitted := gogu.Omit(build(es, rep), held...)
 		if !sameMap(omitted, no) {
 			return fmt.Errorf("%s: Omit = %v, want exactly the entries under the other keys %s", where(), omitted, show(no))
 		}
